@@ -186,9 +186,12 @@ impl Record {
 
         let line_base_count = self.line_base_count.get();
         let line_width = self.line_width.get();
-        let pos = self.position() + start / line_base_count * line_width + start % line_base_count;
 
-        Ok(pos)
+        (start / line_base_count)
+            .checked_mul(line_width)
+            .and_then(|n| n.checked_add(start % line_base_count))
+            .and_then(|n| self.position().checked_add(n))
+            .ok_or_else(|| io::Error::new(io::ErrorKind::InvalidData, "offset overflow"))
     }
 }
 
@@ -201,5 +204,36 @@ impl Default for Record {
             line_base_count: NonZero::<u64>::MIN,
             line_width: NonZero::<u64>::MIN,
         }
+    }
+}
+
+#[cfg(test)]
+mod tests {
+    use noodles_core::Position;
+
+    use super::*;
+
+    #[test]
+    fn test_query_with_offset_overflow() -> Result<(), Box<dyn std::error::Error>> {
+        let line_base_count = const { NonZero::new(5).unwrap() };
+        let line_width = const { NonZero::new(6).unwrap() };
+
+        let record = Record::new("sq0", 5, u64::MAX, line_base_count, line_width);
+        assert_eq!(record.query(Interval::from(..))?, u64::MAX);
+
+        let start = Position::try_from(2)?;
+        assert!(matches!(
+            record.query(Interval::from(start..)),
+            Err(e) if e.kind() == io::ErrorKind::InvalidData
+        ));
+
+        let record = Record::new("sq0", u64::MAX, 4, line_base_count, NonZero::<u64>::MAX);
+        let start = Position::try_from(11)?;
+        assert!(matches!(
+            record.query(Interval::from(start..)),
+            Err(e) if e.kind() == io::ErrorKind::InvalidData
+        ));
+
+        Ok(())
     }
 }
